@@ -1394,6 +1394,12 @@ def extract_closure(src, spec, unit_rules):
             if len(c) <= rg.get("n", 0):
                 raise LostAnchor(f"if `{rg['cond_contains']}` of {spec['path']}")
             body, is_block = list(c[rg.get("n", 0)]["then"]), True
+        elif rg["kind"] == "match":
+            # the `match` expression whose scrutinee mentions a text: its value is the function's result
+            c = [n for n in fn["nodes"] if n["kind"] == "match" and rg["scrutinee_contains"].replace(" ", "") in n["scrutinee_text"].replace(" ", "")]
+            if len(c) <= rg.get("n", 0):
+                raise LostAnchor(f"match on `{rg['scrutinee_contains']}` of {spec['path']}")
+            body, is_block = list(c[rg.get("n", 0)]["range"]), False
         elif rg["kind"] == "stmts":
             # the top-level statements of the function from the first one that mentions a text to the last
             st = fn.get("stmts") or []
